@@ -550,6 +550,56 @@ func TestC13(t *testing.T) {
 			rec.NonTrivialEnum(nm)
 		}
 
+		// count sums: definitions whose regular and developer field counts
+		// add up to 255, 256 and 257 in several splits (whatever is computed
+		// from the two counts together must not wrap), a record under each,
+		// then records of another local type
+		if hx.FirstShard() {
+			ncs := int64(0)
+			for _, split := range [][2]int{{1, 254}, {1, 255}, {2, 255}, {56, 200}, {57, 200}, {128, 127}, {128, 128}, {129, 128}, {254, 1}, {255, 1}, {255, 2}, {255, 255}, {200, 56}} {
+				for _, g := range []uint16{0xFF30, 20} {
+					def := fitmodel.Rec{IsDef: true, Local: 2, Global: g, HasDev: true}
+					mi := prof.Table().Msgs[g]
+					for n := 0; len(def.Fields) < split[0]; n++ {
+						num := byte(n)
+						if num == 253 || (mi != nil && mi.Fields[num] != nil) {
+							// known fields of the record message would need their own types: unknown numbers only
+							if g == 20 {
+								continue
+							}
+						}
+						if n > 255 {
+							break
+						}
+						def.Fields = append(def.Fields, fitmodel.FieldDef{Num: num, Size: 1, Base: 0x02})
+					}
+					if len(def.Fields) != split[0] {
+						continue // not enough unknown field numbers for this message
+					}
+					for k := 0; k < split[1]; k++ {
+						def.Dev = append(def.Dev, fitmodel.DevFieldDef{Num: byte(k), Size: 1, Idx: byte(k % 3)})
+					}
+					raw := make([]byte, split[0]+split[1])
+					for i := range raw {
+						raw[i] = byte(1 + i%200)
+					}
+					st := &fitmodel.Stream{HeaderSize: 12, Proto: 0x20, Recs: []fitmodel.Rec{
+						{IsDef: true, Local: 0, Global: 0, Fields: []fitmodel.FieldDef{{Num: 0, Size: 1, Base: 0}}}, {Local: 0, Raw: []byte{4}},
+						{IsDef: true, Local: 1, Global: 20, Fields: []fitmodel.FieldDef{{Num: 3, Size: 1, Base: 2}}}, {Local: 1, Raw: []byte{100}},
+						def, {Local: 2, Raw: raw}, {Local: 1, Raw: []byte{101}}, {Local: 2, Raw: raw}, {Local: 1, Raw: []byte{102}},
+					}}
+					c := streamCase{FileType: 4, Stream: st, Text: fmt.Sprintf("(count-sums) message %d defined with %d regular and %d developer fields", g, split[0], split[1])}
+					ncs++
+					if msg, ok := checkStream(rec, c); !ok {
+						c.Text = st.String()
+						rec.Fail("count-sums", "", fmt.Sprintf("a definition with %d regular and %d developer fields: %s", split[0], split[1], msg), c)
+					}
+				}
+			}
+			rec.Eval("count-sums", ncs)
+			rec.NonTrivialEnum(ncs)
+		}
+
 		// redefinitions whose definition bytes collide with the replaced
 		// definition's under common checksums (gen.CollidingDefs)
 		if hx.FirstShard() {
